@@ -20,7 +20,8 @@ MANIFEST = {
  "note": "Trusted: Lean kernel (propext, Classical.choice, Quot.sound); the fake fd table in the harness implements "
          "POSIX lowest-free allocation like the model (cross-checked by the real-kernel runs); clang/ASan. Assumed: every "
          "parent descriptor is close-on-exec at fork (C15), stdio sources are open, nobody else waits on libuv's children, "
-         "fcntl/open do not fail with EMFILE in the child. Not modelled (monitors only): exec, setsid, cwd, env, uid/gid, "
+         "fcntl/open do not fail with EMFILE in the child. Flag bits outside the accepted set are an assert() in uv_spawn (a caller "
+         "contract, not an error return), so they are not exercised. Not modelled (monitors only): exec, setsid, cwd, env, uid/gid, "
          "kill delivery, SIGCHLD delivery itself (C13).",
  "design": "DESIGN.md §3 C12",
  "technique": "Lean 4 proof over executable model + correspondence (unit include with redirected syscalls; real fork/exec monitors)",
@@ -422,27 +423,46 @@ def hx(b):
     return "x" + b.hex()
 
 
+F_SETUID, F_SETGID, F_VERBATIM, F_DETACHED, F_HIDE, F_HIDE_CONSOLE, F_HIDE_GUI, F_EXACT_NAME = (1 << k for k in range(8))
+F_IGNORED_ON_UNIX = [F_VERBATIM, F_HIDE, F_HIDE_CONSOLE, F_HIDE_GUI, F_EXACT_NAME]
+
+
 def ids_monitor(cmd, blk):
-    """credentials seen from inside the child (Uid/Gid: real, effective, saved, fs; supplementary groups)"""
-    _, su, uid, sg, gid = cmd.split()
-    su, sg = su == "1", sg == "1"
+    """credentials (Uid/Gid: real, effective, saved, fs; supplementary groups), session / process group and cwd seen from
+    inside the child, for any combination of the accepted flag bits"""
+    _, fl, uid, gid, cwd = cmd.split()
+    fl = int(fl)
+    su, sg, det = bool(fl & F_SETUID), bool(fl & F_SETGID), bool(fl & F_DETACHED)
     P = {l.split()[1]: l.split()[2:] for l in blk if l.startswith("P ")}
     I = {l.split()[1]: l.split()[2:] for l in blk if l.startswith("I ")}
     if "end" not in blk: return "spawn-crash", f"harness died: {blk[-3:]}"
     sp = next((l for l in blk if l.startswith("spawn ")), "")
-    if sp != "spawn 0 active=1": return "spawn-uid-gid", f"spawn with setuid={su}:{uid} setgid={sg}:{gid} as root: `{sp}`"
+    if not sp.startswith("spawn 0 active=1"): return "spawn-uid-gid", f"spawn with flags {fl:#x} uid={uid} gid={gid} as root: `{sp}`"
     if [l for l in blk if l.startswith("cb ")] != ["cb 0 0 0 wp=ECHILD active=0"]:
         return "spawn-uid-gid", f"child did not run to completion: {blk}"
     exp = {"Uid:": [uid] * 4 if su else P.get("Uid:"), "Gid:": [gid] * 4 if sg else P.get("Gid:"),
            "Groups:": [] if (su or sg) else P.get("Groups:")}
     for k, v in exp.items():
         if I.get(k) != v:
-            return "spawn-uid-gid", (f"child's {k} {I.get(k)} expected {v} (UV_PROCESS_SETUID={su} uid={uid}, UV_PROCESS_SETGID={sg} "
+            return "spawn-uid-gid", (f"child's {k} {I.get(k)} expected {v} (flags {fl:#x}: SETUID={su} uid={uid}, SETGID={sg} "
                                      f"gid={gid}; parent {P})")
+    ecwd = [cwd] if cwd != "-" else P.get("cwd")
+    if I.get("Cwd:") != ecwd: return "spawn-cwd", f"child's cwd {I.get('Cwd:')} expected {ecwd} (flags {fl:#x})"
+    st = " ".join(I.get("Stat:", []))
+    after = st[st.rfind(")") + 1:].split()          # state ppid pgrp session ...
+    pid = sp.split("pid=")[1]
+    if len(after) < 4: return "spawn-crash", f"no /proc/self/stat from the child: {st}"
+    pgrp, sess = after[2], after[3]
+    if det and (pgrp != pid or sess != pid):
+        return "spawn-detached", f"UV_PROCESS_DETACHED among flags {fl:#x}: child {pid} is in session {sess}, group {pgrp} (parent's: {P.get('proc')})"
+    if not det and [sess, pgrp] != P.get("proc")[1:]:
+        return "spawn-detached", f"flags {fl:#x} without DETACHED: child session/group {sess}/{pgrp}, parent's {P.get('proc')[1:]}"
     return None, None
 
 
 def opts_cmd(det, cwd, env, filemode, xargs):
+    """det: 0/1 or a full flags bitmask (bits 2..7)"""
+    if det == 1: det = F_DETACHED
     e = "inherit" if env is None else ("none" if not env else ",".join(hx(x) for x in env))
     return f"opts {det} {cwd} {e} {filemode}" + "".join(" " + hx(a) for a in xargs)
 
@@ -450,7 +470,7 @@ def opts_cmd(det, cwd, env, filemode, xargs):
 def opts_monitor(cmd, blk):
     """cwd / exact environ / session+group / argv / program lookup, all observed by the helper child itself"""
     w = cmd.split()
-    det, cwd, envs, fm, xargs = int(w[1]), w[2], w[3], w[4], w[5:]
+    det, cwd, envs, fm, xargs = int(w[1]) & F_DETACHED, w[2], w[3], w[4], w[5:]
     if "end" not in blk: return "spawn-crash", f"harness died: {blk[-3:]}"
     def val(pfx, key): return next((l.split(None, 2)[2] for l in blk if l.startswith(f"{pfx} {key} ")), None)
     pdir, pexe = val("P", "dir"), val("P", "exe")
@@ -506,8 +526,16 @@ ENVPOOL = ["C12VAR=hello", "A=", "B=x=y", "WITH SPACE=a b  c", "UTF=é€", "LAN
 ARGPOOL = ["", "a b", "--x=y", "-", "*", "$HOME", "\\", "'q\"", "é", "y" * 300, "\t", "last"]
 
 
+def gen_flags(rng, allowed):
+    """random combination of the given accepted bits"""
+    f = 0
+    for b in allowed:
+        if rng.chance(1, 3): f |= b
+    return f
+
+
 def gen_opts(rng):
-    det = rng.below(2)
+    det = gen_flags(rng, [F_DETACHED, F_DETACHED] + F_IGNORED_ON_UNIX)
     cwd = rng.choice(["-", "-", "/", "/proc", "/usr/bin", "/var/tmp"])
     fm = rng.choice(["abs", "argv0", "bare", "bare"])
     k = rng.below(4)
@@ -523,8 +551,8 @@ def gen_opts(rng):
 def gen_ids(rng):
     uid, gid = rng.range(1000, 60000), rng.range(1000, 60000)
     while gid == uid: gid = rng.range(1000, 60000)
-    su, sg = rng.choice([(1, 1), (1, 1), (1, 0), (0, 1), (0, 0)])
-    return f"ids {su} {uid} {sg} {gid}"
+    fl = gen_flags(rng, [F_SETUID, F_SETUID, F_SETGID, F_SETGID, F_DETACHED, F_DETACHED] + F_IGNORED_ON_UNIX)
+    return f"ids {fl} {uid} {gid} {rng.choice(['-', '-', '/', '/proc', '/usr'])}"
 
 
 SIGS = [1, 2, 3, 6, 9, 10, 12, 13, 14, 15]
@@ -657,8 +685,14 @@ def spawn_cases(ctx, rng):
     if os.geteuid() == 0:
         cmds.append(layout_cmd(["i", "f1", "f2"], uid=65534))
         # uid != gid numerically; SETUID alone, SETGID alone, both, neither: credentials read inside the child
-        cmds += ["ids 1 1234 1 4321", "ids 1 2345 0 5432", "ids 0 3456 1 6543", "ids 0 7 0 8"]
-        cmds += [gen_ids(rng) for _ in range(ctx.scale(3, 40))]
+        # SETUID / SETGID / DETACHED in all 8 combinations, each also with one Windows-only bit and with all of them
+        allw = sum(F_IGNORED_ON_UNIX)
+        for base in range(8):
+            fl = (F_SETUID if base & 1 else 0) | (F_SETGID if base & 2 else 0) | (F_DETACHED if base & 4 else 0)
+            extra = [0, rng.choice(F_IGNORED_ON_UNIX), allw] if not ctx.quick else [rng.choice([0, rng.choice(F_IGNORED_ON_UNIX), allw])]
+            for x in extra:
+                cmds.append(f"ids {fl | x} {1234 + base} {4321 + base} {rng.choice(['-', '/proc'])}")
+        cmds += [gen_ids(rng) for _ in range(ctx.scale(3, 60))]
     else:
         ctx.notes["uid_gid"] = "not running as root: the UV_PROCESS_SETUID/SETGID class was skipped"
     # cwd / exact environ / detached / argv / program lookup through PATH (inherited or options.env) vs absolute file
@@ -666,6 +700,10 @@ def spawn_cases(ctx, rng):
              opts_cmd(0, "/", [], "abs", ["x"]), opts_cmd(0, "-", None, "bare", ["via inherited PATH"]),
              opts_cmd(1, "/var/tmp", ["A=1", "PATH=/bin:@"], "bare", []), opts_cmd(0, "-", ["A=1"], "bare", []),
              opts_cmd(0, "-", ["PATH=/bin:/usr/bin"], "bare", []), opts_cmd(0, "-", [], "bare", [])]
+    # every accepted flag bit that Unix must ignore, alone and together, crossed with DETACHED: sid/pgid, env, cwd, argv checked each time
+    for b in F_IGNORED_ON_UNIX + [sum(F_IGNORED_ON_UNIX)]:
+        for d in (0, F_DETACHED):
+            cmds.append(opts_cmd(b | d, rng.choice(["-", "/proc", "/"]), rng.choice([None, ["C12VAR=v", "A="], []]), "abs", ["a b"]))
     cmds += [gen_opts(rng) for _ in range(ctx.scale(10, 150))]
     cmds.append("echo")
     for how in ("process", "pid"):
